@@ -369,7 +369,8 @@ class Assembler:
                             #     { match __rbv_tfe_f_N(__rbv_tfe_x_N) { Ok(()) => {} Err(e) => { __rbv_tfe_r_N = Err(e); break; } } }
                             #     __rbv_tfe_r_N }
                             # (N = ordinal of the rewrite in the fn; ITER = `iter=NAME`, default __rbv_tfe_it_N).  A `.into_iter()` that
-                            # ends RECV is dropped (`for` applies it) and `let ghost __rbv_tfe_s_N = __rbv_tfe_v_N@;` names the items.
+                            # ends RECV is dropped (`for` applies it) and `let ghost __rbv_tfe_s_N = __rbv_tfe_v_N@;` names the items (for a
+                            # receiver that is an iterator: `= __rbv_tfe_v_N.remaining();`, vstd::std_specs::iter::IteratorSpec in scope).
                             # `rbv_tfe_typed_iter` / `rbv_tfe_typed_vec` (units/verus/rbv_tfe.vui, included by the unit) are the identity on the
                             # closure; they only give rustc the parameter type that try_for_each's signature gave it.
                             # The closure keeps its own tokens (`closure` / `closure-params-to-let` apply to it as usual).  Verus has no
@@ -890,7 +891,7 @@ class Assembler:
                         if into_iter:
                             edits.append((st[k - 7].start, st[k - 1].end, '; let ghost %s = %s@; let %s = rbv_tfe_typed_vec(&%s, ' % (ns, nv, nf, nv)))
                         else:
-                            edits.append((st[k - 3].start, st[k - 1].end, '; let %s = rbv_tfe_typed_iter(&%s, ' % (nf, nv)))
+                            edits.append((st[k - 3].start, st[k - 1].end, '; let ghost %s = %s.remaining(); let %s = rbv_tfe_typed_iter(&%s, ' % (ns, nv, nf, nv)))
                         for ph_, nm_ in (('$r', nr), ('$v', nv), ('$f', nf), ('$s', ns)):
                             ftext = ftext.replace(ph_, nm_)
                         # optional sections of the field text: a line `@before` / `@after` starts ghost text that is put right
@@ -1020,7 +1021,12 @@ class Assembler:
                         else:
                             # in statement position (`panic!(..);`) the type parameter cannot be inferred: say `()`
                             stmt_pos = kc + 1 < len(st) and st[kc + 1].text == ';'
+                            # `panic!(..);` as the LAST statement of a block that must yield a value (`_ => { panic!(..); }` in a
+                            # match of type T): `unreached::<()>();` would give the block the type (); `return unreached();` has the
+                            # type `!` like the panic (its type parameter is the return type of the enclosing fn / closure)
+                            last_stmt = stmt_pos and kc + 2 < len(st) and st[kc + 2].text == '}'
                             edits.append((t.start, st[kc].end,
+                                          'return vstd::pervasive::unreached()' if last_stmt else
                                           'vstd::pervasive::unreached::<()>()' if stmt_pos else 'vstd::pervasive::unreached()'))
                             self.rewrites.append('R2 %s:%d %s! -> unreached()' % (blk.relpath, src.line_of(t.start), t.text))
                         k = kc + 1
